@@ -1,11 +1,60 @@
 // C06 a wrong key is always rejected and yields no plaintext.
 #include "../tamper.h"
 
+// error paths: every allocation made while verifying / decrypting with a wrong key fails in turn. Whatever the
+// code does about it (exception, abort, error return), it must not accept the key or write plaintext.
+static Verdict run_c06_fault(const Case &c, const EncCase &e, const bytes &base)
+{
+  Verdict v;
+  bytes w = c.getb("wrongkey");
+  w.resize(16);
+  v.classes.push_back("kind=allocfault");
+  if (!wapi::has_scheduler() || w == e.key)
+    return v;
+  for (int dec = 0; dec < 2; dec++)
+  {
+    FaultRun cnt = run_faulted(dec, base, w, e, -1);
+    if (cnt.st != CH_OK)
+      continue; // C04 / C11 territory
+    long A = std::min<long>(cnt.o.allocs_seen, 300);
+    v.classes.push_back(A == 0 ? "no_allocations_counted" : "alloc_sweep");
+    for (long n = 0; n < A; n++)
+    {
+      FaultRun fr = run_faulted(dec, base, w, e, n);
+      v.weight++;
+      std::string m;
+      if (fr.st != CH_OK)
+      {
+        v.classes.push_back("fault:abnormal_end(accepted)");
+        continue;
+      }
+      v.classes.push_back(!fr.o.fault_fired ? "fault:not_reached" : fr.o.threw ? "fault:exception" : "fault:handled_by_the_code");
+      if (fr.o.fault_fired)
+        v.more_distinct.push_back(fnv64(hex(w) + (dec ? "d" : "v") + std::to_string(n), fnv64(base.data(), base.size())));
+      if (fr.o.ret)
+        m = std::string(dec ? "decryption" : "verification") + " succeeded with a wrong key";
+      else if (fr.o.out_writes || !fr.o.out.empty())
+        m = std::string(dec ? "decryption" : "verification") + " with a wrong key wrote " + std::to_string(fr.o.out_written_bytes) + " bytes to the output";
+      if (!m.empty())
+      {
+        Verdict fl = Verdict::fail(m + " when allocation #" + std::to_string(n) + " of the operation failed [key " + hex(w) + ", right key " + hex(e.key) + "]");
+        fl.nontrivial = true;
+        fl.classes = v.classes;
+        return fl;
+      }
+    }
+  }
+  v.nontrivial = !v.more_distinct.empty();
+  return v;
+}
+
 static Verdict run_c06(const Case &c)
 {
   Verdict v;
   EncCase e = enc_from(c);
   bytes base = ref::encrypt_file(e.P, fparams(e));
+  if (c.get("kind", "one") == "allocfault")
+    return run_c06_fault(c, e, base);
   std::vector<bytes> keys;
   std::vector<std::string> labels;
   std::string kind = c.get("kind", "one");
@@ -38,18 +87,22 @@ static Verdict run_c06(const Case &c)
   v.classes.push_back("hmode" + std::to_string(e.hmode));
   v.weight = keys.size();
   std::vector<DV> res = batch_dv(files, keys, e.T, e.chunk, e.refill);
+  if (keys.size() > 1 && keys[0] == e.key && res[0].evaluated && res[0].st != CH_OK)
+  {
+    // the run with the right key did not end normally (not C06's subject): judge the wrong keys without it
+    v.classes.push_back("right_key_run_abnormal_see_C01_C04_C11");
+    keys.erase(keys.begin());
+    labels.erase(labels.begin());
+    files.erase(files.begin());
+    res = batch_dv(files, keys, e.T, e.chunk, e.refill);
+  }
   for (size_t i = 0; i < keys.size(); i++)
   {
     if (keys[i] == e.key)
     {
       const DV &rr = res[i];
       if (rr.evaluated && rr.st == CH_OK && (!rr.vret || !rr.dret || rr.dout != e.P))
-      {
-        Verdict fl = Verdict::fail("the right key is not accepted for a valid file (harness expectation; see C01/C12)");
-        fl.infra = false;
-        fl.nontrivial = true;
-        return fl;
-      }
+        v.classes.push_back("right_key_not_accepted_see_C01_C02_C12"); // not a statement of C06
       continue; // not a wrong key
     }
     const DV &r = res[i];
@@ -92,6 +145,14 @@ static Case gen_c06()
   o.schedules = false;
   gen_enc(c, o);
   long k = g::range(0, 100);
+  if (wapi::has_scheduler() && g::coin(2))
+  {
+    c.set("kind", "allocfault");
+    bytes w = c.getb("key");
+    w[(size_t)g::range(0, 16)] ^= (uint8_t)(1 << g::range(0, 8));
+    c.setb("wrongkey", w);
+    return c;
+  }
   if (k < 40)
     c.set("kind", "neighbours");
   else
@@ -139,6 +200,14 @@ static void fixed_c06(Ctx &ctx)
       c.seti("T", 1 + hm);
       c.seti("chunk", 32);
       eval_fixed(*p, ctx, c);
+      if (wapi::has_scheduler())
+      {
+        bytes w = c.getb("key");
+        w[3] ^= 0x10;
+        c.set("kind", "allocfault");
+        c.setb("wrongkey", w);
+        eval_fixed(*p, ctx, c);
+      }
     }
 }
 
